@@ -19,7 +19,7 @@ RULE = (
 LOOKALIKE = ["Table 1", "Table 2", "table 2", "TABLE 3", "Table 4", "Sheet 1", "Sheet 2", "sheet 3", "SHEET 2", "Table 10", "Table  2", "Table 2 ", "Sheet 02"]
 
 
-def gen(seed: int, tier: str):
+def gen(seed: int, tier: str, idx=None):
     rng0 = substream(seed, "swarm")
     cfg = {"property": PROPERTY, "aspects": ["grid", "names"], "profile": "names", "_mix": {"s": 1, "i": 1}, "_long": False}
     g = Gen(seed, tier, cfg)
